@@ -175,6 +175,20 @@ def check_ctrldep(ck: Checker, f: Func, m: Model, *, legacy: bool = False, rule:
         known |= {"skip_self"}
     unknown = keys - known
     if unknown:
+        # a positive pattern: elements are skipped because something derived from them was seen before (a visited set)
+        fn_ = f.node
+        seen_sets = {st.targets[0].id for st in walk_body(fn_.body) if isinstance(st, ast.Assign) and len(st.targets) == 1 and isinstance(st.targets[0], ast.Name)
+                     and ((isinstance(st.value, ast.Call) and dotted(st.value.func) in ("set", "dict") and not st.value.args) or isinstance(st.value, (ast.Set, ast.Dict)))}
+        grown = {c.func.value.id for c in walk_body(m.loop.body) if isinstance(c, ast.Call) and isinstance(c.func, ast.Attribute) and c.func.attr in ("add", "update", "setdefault")
+                 and isinstance(c.func.value, ast.Name)} | {st.targets[0].value.id for st in walk_body(m.loop.body) if isinstance(st, ast.Assign)
+                                                            and isinstance(st.targets[0], ast.Subscript) and isinstance(st.targets[0].value, ast.Name)}
+        for k in sorted(unknown):
+            for sname in sorted(seen_sets & grown):
+                if k.startswith("in(") and k.endswith(f",{sname})") and tv in k:
+                    ck.violation(rule, f, m.loop, f"{f.qualname}({mtxt}): every position of the tree is visited (no element is skipped because an equal / identically "
+                                 "named one was seen before)", construct=f"{f.qualname}({mtxt}): elements are skipped when {k[3:-1].split(',')[0]} is already in the local set "
+                                 f"{sname} (a node object placed at two positions, or two nodes sharing an id, is traversed once only)")
+                    return
         raise Unsupported(f"traversal loop body depends on {sorted(unknown)}", m.loop)
     bad = []
     for r in rows:
@@ -267,6 +281,13 @@ def check_gather(ck: Checker, f: Func, *, legacy: bool = False, rule: str = "R-G
     # the stream: one loop over self.dfs(..., filter=<closure>)
     loops = [s for s in fn.body if isinstance(s, ast.For)]
     dcalls = [c for c in walk_body(fn.body) if isinstance(c, ast.Call) and isinstance(c.func, ast.Attribute) and c.func.attr == "dfs" and norm(c.func.value) == "self"]
+    if not dcalls:
+        others = [c for c in walk_body(fn.body) if isinstance(c, ast.Call) and isinstance(c.func, ast.Attribute) and c.func.attr == "bfs" and norm(c.func.value) == "self"]
+        if others:
+            # a positive pattern: the matches are streamed from the level-order traversal
+            ck.violation(rule, f, others[0], "gather yields its matches in the pre-order of dfs()",
+                         construct=f"{f.qualname}: the matches are taken from self.bfs(...): they come in level order, not in pre-order")
+            return
     if len(dcalls) != 1 or kw(dcalls[0], "filter") is None or not isinstance(kw(dcalls[0], "filter"), ast.Name):
         raise Unsupported("gather: not a single self.dfs(..., filter=<local function>) call", fn)
     fname = kw(dcalls[0], "filter").id  # type: ignore[union-attr]
@@ -381,6 +402,29 @@ def check_gather(ck: Checker, f: Func, *, legacy: bool = False, rule: str = "R-G
         ck.holds(rule, f, fn, what)
 
 
+def r_traversals(ck: Checker) -> None:
+    """dfs / bfs as worklist algorithms (order, seeding, records, loop-body truth table); shared with the properties that are defined through a traversal."""
+    dfs = ck.repo.func(NODE, "ASTNode.dfs")
+    bfs = ck.repo.func(NODE, "ASTNode.bfs")
+    for trav in (dfs, bfs):
+        rec = recursion_on_depth(trav)
+        what = f"{trav.qualname} is iterative: the depth of the tree is not bounded by the interpreter's recursion limit"
+        if rec:
+            ck.violation("R-WORKLIST", trav, trav.node, what, construct=f"{trav.qualname}: {rec} (a deep tree raises RecursionError instead of being traversed)")
+            return
+        ck.holds("R-WORKLIST", trav, trav.node, what)
+        late = late_bound_deferred(trav)
+        if late:
+            ck.violation("R-WORKLIST", trav, trav.node, f"{trav.qualname}: no deferred group reads a loop variable after it is rebound",
+                         construct=f"{trav.qualname}: {late}")
+            return
+    for mode, exp in (({"bottom_up": False}, "pre-order"), ({"bottom_up": True}, "post-order")):
+        m = check_worklist(ck, dfs, mode, exp)
+        ck.guard("R-CTRLDEP", lambda m=m: check_ctrldep(ck, dfs, m), dfs)
+    m = check_worklist(ck, bfs, {}, "level order")
+    ck.guard("R-CTRLDEP", lambda: check_ctrldep(ck, bfs, m), bfs)
+
+
 def run(ck: Checker) -> None:
     ck.explanation = (
         "dfs/bfs are recognised as worklist algorithms; discipline (take side vs put side), sibling order (reverse()/reversed under "
@@ -395,30 +439,10 @@ def run(ck: Checker) -> None:
     ck.assumptions += ["list.pop/append, deque.popleft/append/appendleft/extend have their stdlib semantics",
                        "user predicates are pure and do not raise"]
 
-    def wl() -> None:
-        dfs = ck.repo.func(NODE, "ASTNode.dfs")
-        bfs = ck.repo.func(NODE, "ASTNode.bfs")
-        for trav in (dfs, bfs):
-            rec = recursion_on_depth(trav)
-            what = f"{trav.qualname} is iterative: the depth of the tree is not bounded by the interpreter's recursion limit"
-            if rec:
-                ck.violation("R-WORKLIST", trav, trav.node, what, construct=f"{trav.qualname}: {rec} (a deep tree raises RecursionError instead of being traversed)")
-                return
-            ck.holds("R-WORKLIST", trav, trav.node, what)
-            late = late_bound_deferred(trav)
-            if late:
-                ck.violation("R-WORKLIST", trav, trav.node, f"{trav.qualname}: no deferred group reads a loop variable after it is rebound",
-                             construct=f"{trav.qualname}: {late}")
-                return
-        for mode, exp in (({"bottom_up": False}, "pre-order"), ({"bottom_up": True}, "post-order")):
-            m = check_worklist(ck, dfs, mode, exp)
-            ck.guard("R-CTRLDEP", lambda m=m: check_ctrldep(ck, dfs, m), dfs)
-        m = check_worklist(ck, bfs, {}, "level order")
-        ck.guard("R-CTRLDEP", lambda: check_ctrldep(ck, bfs, m), bfs)
-
-    ck.guard("R-WORKLIST", wl)
+    ck.guard("R-WORKLIST", lambda: r_traversals(ck))
     ck.guard("R-GATHER", lambda: check_gather(ck, ck.repo.func(NODE, "ASTNode.gather")))
     ck.guard("R-PRESENCE", lambda: T.r_presence(ck))
+    ck.guard("R-PRESENCE", lambda: T.r_child_abc(ck))
     ck.guard("R-ENUM-SHAPE", lambda: T.r_enum_shape(ck))
     ck.guard("R-ORDER-KEY", lambda: T.r_order_key(ck, gens=("_gen_get_child_nodes_func", "_gen_get_child_nodes_with_field_func", "_gen_iter_child_fields_func")))
     ck.guard("R-ORDER-KEY", lambda: T.r_gen_stateless(ck))
